@@ -17,7 +17,19 @@ type recWriter struct {
 	failAt int // -1 never; the failAt-th Write (0-based) and all later ones fail
 }
 
+// touchCap reads the last byte within the capacity of a slice the library handed out.  That is a
+// legal read for any Go slice; a slice header forged with a wrong capacity (an unsafe conversion
+// that reads a string header as a slice header, say) makes it fault.
+var capSink byte
+
+func touchCap(b []byte) {
+	if cap(b) > len(b) {
+		capSink ^= b[:cap(b)][cap(b)-1]
+	}
+}
+
 func (w *recWriter) Write(b []byte) (int, error) {
+	touchCap(b)
 	w.chunks = append(w.chunks, append([]byte(nil), b...))
 	if w.failAt >= 0 && len(w.chunks)-1 >= w.failAt {
 		return 0, errInjected
